@@ -163,6 +163,19 @@ def subcommands(P, quick):
                  "--output-haplotag-list", o + "/tags.tsv", "--output-threads", t],
                 {"bam": (o + "/out.bam", "bam"), "taglist": (o + "/tags.tsv", "text")})
 
+    def haplotag_regions(o, t):
+        # several --regions values: the order in which regions/chromosomes are processed must not depend on the
+        # interpreter's hash seed (regions are given in BAM order and do not overlap)
+        import pysam as _pysam
+        with _pysam.AlignmentFile(P["bam"]) as _b:
+            refs = list(_b.references)
+        regs = []
+        for r in refs:
+            regs += ["--regions", r]
+        return (["haplotag", P["phasedA_gz"], P["bam"], "-o", o + "/out.bam", "--reference", P["fa"],
+                 "--output-haplotag-list", o + "/tags.tsv"] + regs,
+                {"bam": (o + "/out.bam", "bam"), "taglist": (o + "/tags.tsv", "text")})
+
     def unphase(o, t):
         return (["unphase", P["phasedA"]], {"vcf": ("<stdout>", "vcf")})
 
@@ -196,6 +209,7 @@ def subcommands(P, quick):
         subs["genotype-ped"] = (genotype_ped, [None])
     subs["polyphase"] = (polyphase, [1, 2, 3, 4])
     subs["haplotag"] = (haplotag, [1, 2, 3, 4])
+    subs["haplotag-regions"] = (haplotag_regions, [None])
     subs["unphase"] = (unphase, [None])
     subs["stats"] = (stats, [None])
     subs["compare"] = (compare, [None])
